@@ -194,15 +194,56 @@ def canon(j):
     return json.dumps(j, sort_keys=True)
 
 
-def name_lost_by_flattening(T, tree):
-    """F16: a named element of the same class as the operation (or +) it is an operand of: the builder splices
-    its operands into the parent and never looks at its name"""
+def named_same_class_operand(T, tree):
+    """a named element of the same class as the operation (or +) it is an operand of — the shape on which the
+    builder used to lose the name (F16, repaired: simplify_if_same now keeps such an operand).  Only MEASURED
+    (distribution); it classifies nothing: every oracle failure is a violation."""
     for _, n in gentree.all_nodes(tree):
         if isinstance(n, (T.BaseOperation, T.Plus)):
             for c in n.children:
                 if type(c) is type(n) and get_name(c):
                     return True
     return False
+
+
+def f16_regression_corpus(T, parser, set_name):
+    """the former witnesses of F16 and their neighbours: the name of an operation (or +) nested directly in an
+    operation of the same class must reach its elements"""
+    def named(n, name):
+        set_name(n, name)
+        return n
+    W = T.Word
+    t16 = parser.parse("+ +a")
+    set_name(t16.a, "x")
+    t16b = T.AndOperation(named(T.AndOperation(W("a"), W("b")), "x"), W("c"))
+    out = [t16, t16b,
+           T.OrOperation(W("c"), named(T.OrOperation(W("a"), W("b")), "x")),
+           T.UnknownOperation(named(T.UnknownOperation(W("a"), W("b")), "x"), W("c")),
+           T.BoolOperation(named(T.BoolOperation(W("a"), W("b")), "x"), W("c")),
+           # two levels, different names: the nearest one wins
+           named(T.AndOperation(named(T.AndOperation(named(T.AndOperation(W("a"), W("b")), "z"), W("c")), "y"),
+                                W("d")), "x"),
+           # a named operand between two un-named ones of the same class (those are still flattened)
+           T.AndOperation(T.AndOperation(W("a"), W("b")), named(T.AndOperation(W("c"), W("d")), "x"),
+                          T.AndOperation(W("e"), named(W("f"), "w"))),
+           # un-named inner operation below a named one of the same class, and the converse
+           named(T.OrOperation(T.OrOperation(W("a"), W("b")), W("c")), "x"),
+           # '' is a name for `is None` but is not propagated
+           T.AndOperation(named(T.AndOperation(W("a"), W("b")), ""), W("c")),
+           T.Plus(named(T.Plus(named(T.Plus(W("a")), "y")), "x")),
+           # under a field / group, with a nested field
+           T.SearchField("f", T.FieldGroup(T.OrOperation(
+               named(T.OrOperation(T.SearchField("g", W("a")), T.SearchField("g", T.Phrase('"b c"'))), "x"),
+               T.SearchField("g", W("d"))))),
+           ]
+    for q in ["a AND b AND c", "a OR b OR c", "a b c", "+ + +a"]:
+        t = parser.parse(q)
+        # the parser nests or flattens as it likes: name every operation / + below the root
+        for i, (_, n) in enumerate(gentree.all_nodes(t)):
+            if i and isinstance(n, (T.BaseOperation, T.Plus)):
+                set_name(n, "n%d" % i)
+        out.append(t)
+    return out
 
 
 def judged(T, cfg, tree):
@@ -226,18 +267,17 @@ def correspond(model_ok, res):
     from luqum.naming import set_name
     r = lib.rng("C06")
     n = 70 if lib.tier() == "quick" else 700
-    t16 = parser.parse("+ +a")
-    set_name(t16.a, "x")
-    t16b = T.AndOperation(T.AndOperation(T.Word("a"), T.Word("b")), T.Word("c"))
-    set_name(t16b.children[0], "x")
+    f16 = f16_regression_corpus(T, parser, set_name)
     hist = [parser.parse(q) for q in ['"a b"~2', 'f:[1 TO 5]', 'x', '"c d"', 'f:{2 TO *]', '"e f"~3', 'y AND "g h"',
                                       'f:[* TO 3}', 'z OR "i j"~1', 'x']]
-    sessions = [({}, [t16, t16b], "F16"), ({}, hist, "history"),
+    sessions = [({}, f16[:10], "F16-regression"), ({"default_operator": "must"}, f16[10:] + f16[:2], "F16-regression"),
+                ({"nested_fields": {"f": ["g"]}, "not_analyzed_fields": ["f.g"]}, f16[5:], "F16-regression"),
+                ({}, hist, "history"),
                 ({"not_analyzed_fields": ["text", "f"]}, hist, "history")] + E.builder_sessions(r, T, n)
     # texts with escaped quotes / backslashes / specials at their ends; homonymous fields under different
     # parents with different analysed-ness, one builder reused in both orders
     sessions += E.escaped_sessions(r, T, n // 4) + E.homonym_sessions(r, T, n // 2)
-    stats = {"judged": 0, "leaf_clauses": 0, "F16": 0, "kinds": {}, "spec_cases": 0}
+    stats = {"judged": 0, "leaf_clauses": 0, "named_same_class_operand": 0, "kinds": {}, "spec_cases": 0}
     spec_cases, spec_payloads = [], []
 
     def oracle(cfg, tree, outcome, info):
@@ -264,22 +304,21 @@ def correspond(model_ok, res):
         for c in json_leaves(outcome[1]):
             k = next(iter(c))
             stats["kinds"][k] = stats["kinds"].get(k, 0) + 1
-        if not name_lost_by_flattening(T, tree):
-            # the Coq specification EsSpec.expected_clauses against the implementation's leaf clauses
-            try:
-                spec_cases.append("(%s, %s, %s)" % (
-                    E.g_config(cfg), lib.g_item(tree),
-                    lib.g_list([E.g_json(c, E.decimals_of(T, tree)) for c in json_leaves(outcome[1])])))
-                spec_payloads.append(payload)
-            except lib.Unmodelled:
-                pass
+        if named_same_class_operand(T, tree):
+            stats["named_same_class_operand"] += 1
+        # the Coq specification EsSpec.expected_clauses against the implementation's leaf clauses (every judged
+        # tree: there is no excluded class any more)
+        try:
+            spec_cases.append("(%s, %s, %s)" % (
+                E.g_config(cfg), lib.g_item(tree),
+                lib.g_list([E.g_json(c, E.decimals_of(T, tree)) for c in json_leaves(outcome[1])])))
+            spec_payloads.append(payload)
+        except lib.Unmodelled:
+            pass
         if want != got:
-            fid = None
-            if name_lost_by_flattening(T, tree):
-                fid = "F16"
-                stats["F16"] += 1
+            # no known finding of C06 is left: every failure of the oracle is a violation
             out.append((dict(payload, why="leaf clauses differ from the predicted ones",
-                             expected=want[:20], got=got[:20]), fid))
+                             expected=want[:20], got=got[:20]), None))
         return out
 
     E.run_sessions("C06", res, model_ok, sessions, T, oracle)
@@ -307,7 +346,9 @@ Definition chk2 (c : es_config * item * list json) : bool :=
         stats["spec_cases"] = len(spec_cases)
         res.cases += len(spec_cases)
     res.rule = ("sessions of 1-10 calls on one builder instance (each also on a fresh instance, first tree "
-                "repeated at the end): fixed histories interleaving phrases with slop, ranges of different "
+                "repeated at the end): the regression corpus of the repaired F16 (named operations / + nested "
+                "directly in an operation of their own class, at several depths, with '' as a name, under fields "
+                "and groups, under three configurations); fixed histories interleaving phrases with slop, ranges of different "
                 "shapes and words; parsed corpus x fixed configurations; random supported trees, supported trees "
                 "with odd values and trees of every class x random configurations; phrases / words starting or "
                 "ending with escaped quotes, backslashes and specials on analysed and not analysed fields; the "
@@ -323,13 +364,16 @@ SPEC = {
     "targets": ["props/C06.vo"],
     "model_targets": ["model/EsBuild.vo", "model/EsSpec.vo"],
     "module": "C06",
-    "theorems": ["C06_leaves_partial", "C06_eleaves_partial", "C06_plain_json", "C06_leaves_refuted",
-                 "C06_leaf_names_refuted", "C06_calls_independent", "C06_class_defaults_untouched",
+    "theorems": ["C06_leaves", "C06_eleaves", "C06_leaf_names", "C06_leaves_partial", "C06_eleaves_partial",
+                 "C06_plain_json", "C06_calls_independent", "C06_class_defaults_untouched",
                  "C06_tie_e_consts_immutable", "C06_tie_builder_eclasses_standard", "C06_tie_methods_known"],
     "correspond": correspond,
     "statement": "multiset of the leaf clauses of the generated query = clauses of the leaves expected from the "
-                 "tree (field, value, kind, modifiers, options, zero_terms_query, _name): refuted in full (F16), "
-                 "proved under no_named_flattened (and in document order on the E-tree); every produced JSON is "
+                 "tree (field, value, kind, modifiers, options, zero_terms_query, _name): proved in full for every "
+                 "supported tree (C06_leaves; in document order on the E-tree: C06_eleaves; the names alone against "
+                 "'own name, else nearest named enclosing element': C06_leaf_names) since the repair of F16 "
+                 "(simplify_if_same keeps a same-class operand that has a name); the guarded theorems of earlier "
+                 "rounds are corollaries and the former witnesses are regression examples; every produced JSON is "
                  "plain data (proved in full); results independent of earlier calls (pure model + generated "
                  "immutability facts + call-sequence correspondence)",
     "trusted_base": [
